@@ -16,6 +16,7 @@ import (
 )
 
 func specs(tier string) []*ukit.Spec {
+	ukit.Dense = tier == "thorough" // wider value neighbourhoods (see ukit.Dense)
 	out := ukit.LeafSpecs()
 	for _, s := range ukit.Depth1() {
 		if (s.Kind == ukit.KList && leafish(s.Item)) || (s.Kind == ukit.KMap && leafish(s.Val)) {
@@ -31,7 +32,26 @@ func specs(tier string) []*ukit.Spec {
 		&ukit.Spec{Kind: ukit.KMap, Key: &ukit.Spec{Kind: ukit.KIntEnum, EnumI: []int64{1, 2}}, Val: &ukit.Spec{Kind: ukit.KMap, Key: str, Val: &ukit.Spec{Kind: ukit.KFloat, FMax: ukit.F64(1)}}},
 		&ukit.Spec{Kind: ukit.KList, Item: &ukit.Spec{Kind: ukit.KAny}, Max: ukit.I64(3)},
 	)
+	if tier == "thorough" {
+		// every list / map of U_2 that is made of leaves, lists and maps only (containers of containers)
+		for _, s := range ukit.Depth2(true) {
+			if (s.Kind == ukit.KList || s.Kind == ukit.KMap) && valueOnly(s) {
+				out = append(out, s)
+			}
+		}
+	}
 	return out
+}
+
+func valueOnly(s *ukit.Spec) bool {
+	ok := true
+	s.Walk(func(n *ukit.Spec) {
+		switch n.Kind {
+		case ukit.KObject, ukit.KOneOfStr, ukit.KOneOfInt, ukit.KScope, ukit.KRef:
+			ok = false
+		}
+	})
+	return ok
 }
 
 func leafish(s *ukit.Spec) bool {
@@ -315,7 +335,7 @@ func main() {
 			check(r.Spec, &res, &r)
 			return res.Findings
 		},
-		Rule: "U_leaf (int/float x 9 (min,max) presence combinations incl. min>max x units; strings x length bounds x pattern; bool; pattern; int/string/typed enums with and without display names; any) plus lists and maps over one representative leaf per kind x 6 size-bound combinations x 4 key kinds, plus 5 depth-2 nestings; x V(spec): every bound +-1 in every Go representation (int/uint widths, float32/64, decimal and unit strings), 2^63 edges, NaN/Inf, boolean words in 3 casings, wrong-type probes; three paths: Unserialize(raw) vs the reference denotation, Validate/Serialize(native) for every value of the native type obtained from the constraint-free twin; first use: every spec with units, two threads unserializing accepted unit strings on one fresh schema, all schedules with <= 2 preemptions under the cooperative scheduler (sync shim + access events on schema/), race scan and denoted results; non-trivial = raw values of the right type whose verdict depends only on the declared constraints",
+		Rule: "U_leaf (int/float x 9 (min,max) presence combinations incl. min>max x units; strings x length bounds x pattern; bool; pattern; int/string/typed enums with and without display names; any) plus lists and maps over one representative leaf per kind x 6 size-bound combinations x 4 key kinds, plus 5 depth-2 nestings; x V(spec): every bound +-1 in every Go representation (int/uint widths, float32/64, decimal and unit strings), 2^63 edges, NaN/Inf, boolean words in 3 casings, wrong-type probes; three paths: Unserialize(raw) vs the reference denotation, Validate/Serialize(native) for every value of the native type obtained from the constraint-free twin; thorough tier: every list / map of U_2 built from leaves, lists and maps only, and dense value neighbourhoods (every integer within 3 of a bound and around 2^7..2^63 in every representation, floats within 3 representable steps of a bound and at the precision edges in three notations, all strings over {a,b,e-acute} up to length 4, all well-formed unit strings of 1-3 components over counts {0,1,59,61}); first use: every spec with units, two threads unserializing accepted unit strings on one fresh schema, all schedules with <= 2 preemptions under the cooperative scheduler (sync shim + access events on schema/), race scan and denoted results; non-trivial = raw values of the right type whose verdict depends only on the declared constraints",
 		Assumptions: []string{
 			"reference conversions delegate to strconv.ParseInt(base 10), strconv.ParseFloat, %d and %f as the SDK's 'fixed lenient conversions'",
 			"Unknown (skipped, counted): bool into numbers and strings, non-string into pattern, floats into bool, byte strings, arrays, non-ASCII strings against length bounds, signed/exponent/decimal-on-multiplier unit strings, two raw keys denoting one key, Go-only values for Unserialize, native values of a convertible but different Go type",
